@@ -160,6 +160,103 @@ fn flip_literal_forms(e: &Expr) -> Option<Expr> {
     if changed { Some(out) } else { None }
 }
 
+/// Programs that differ from `e` in exactly one literal (the ASCII case of one letter of a string,
+/// regex or wildcard literal flipped; an integer literal increased by one).
+fn literal_neighbours(e: &Expr) -> Vec<Expr> {
+    fn flip_case(b: &[u8]) -> Option<Vec<u8>> {
+        let i = b.iter().position(|c| c.is_ascii_alphabetic())?;
+        // keep escapes intact: do not touch a letter that follows a backslash
+        if i > 0 && b[i - 1] == b'\\' {
+            return None;
+        }
+        let mut v = b.to_vec();
+        v[i] ^= 0x20;
+        Some(v)
+    }
+    // every position of a literal is numbered in traversal order; `target` selects the one to change
+    fn lit(l: &Lit, k: &mut usize, target: usize) -> Lit {
+        let here = *k;
+        *k += 1;
+        if here != target {
+            return l.clone();
+        }
+        match l {
+            Lit::Int(i, f) if *i < i64::MAX => Lit::Int(i + 1, *f),
+            Lit::Bytes(b, f) => match flip_case(b) {
+                Some(v) => Lit::Bytes(v, *f),
+                None => l.clone(),
+            },
+            other => other.clone(),
+        }
+    }
+    fn lhs(l: &Lhs, k: &mut usize, t: usize) -> Lhs {
+        let id = match &l.id {
+            Ident::Field(n) => Ident::Field(n.clone()),
+            Ident::Call(n, args) => Ident::Call(
+                n.clone(),
+                args.iter()
+                    .map(|a| match a {
+                        Arg::Lhs(x) => Arg::Lhs(lhs(x, k, t)),
+                        Arg::Lit(x) => Arg::Lit(lit(x, k, t)),
+                        Arg::Logical(x) => Arg::Logical(expr(x, k, t)),
+                    })
+                    .collect(),
+            ),
+        };
+        Lhs { id, path: l.path.clone() }
+    }
+    fn expr(e: &Expr, k: &mut usize, t: usize) -> Expr {
+        match e {
+            Expr::IsTrue(l) => Expr::IsTrue(lhs(l, k, t)),
+            Expr::Cmp { lhs: l, op, rhs } => {
+                let l2 = lhs(l, k, t);
+                let r = match rhs {
+                    Rhs::Lit(x) => Rhs::Lit(lit(x, k, t)),
+                    Rhs::Regex(p, f) => {
+                        let here = *k;
+                        *k += 1;
+                        match (here == t).then(|| flip_case(p.as_bytes())).flatten().and_then(|v| String::from_utf8(v).ok()) {
+                            Some(q) => Rhs::Regex(q, *f),
+                            None => rhs.clone(),
+                        }
+                    }
+                    Rhs::BytesSet(v) => Rhs::BytesSet(
+                        v.iter()
+                            .map(|(b, f)| match lit(&Lit::Bytes(b.clone(), *f), k, t) {
+                                Lit::Bytes(b2, f2) => (b2, f2),
+                                _ => (b.clone(), *f),
+                            })
+                            .collect(),
+                    ),
+                    other => other.clone(),
+                };
+                Expr::Cmp { lhs: l2, op: *op, rhs: r }
+            }
+            Expr::Not(x) => Expr::Not(Box::new(expr(x, k, t))),
+            Expr::Paren(x) => Expr::Paren(Box::new(expr(x, k, t))),
+            Expr::Chain(op, items) => Expr::Chain(*op, items.iter().map(|x| expr(x, k, t)).collect()),
+            Expr::Quant(q, a) => Expr::Quant(
+                *q,
+                Box::new(match &**a {
+                    QArg::Lhs(l) => QArg::Lhs(lhs(l, k, t)),
+                    QArg::Logical(x) => QArg::Logical(expr(x, k, t)),
+                }),
+            ),
+        }
+    }
+    let mut total = 0usize;
+    let _ = expr(e, &mut total, usize::MAX);
+    let mut out = Vec::new();
+    for t in 0..total.min(6) {
+        let mut k = 0usize;
+        let v = expr(e, &mut k, t);
+        if v != *e {
+            out.push(v);
+        }
+    }
+    out
+}
+
 pub fn run(tier: Tier, seed: u64) -> i32 {
     let run = Run::new(ID, "exploration", tier, seed);
     run.assume("expected JSON documents come from the reference serialiser (sem::expr_json); whitespace alphabet: space, CR, LF between tokens, any Unicode whitespace around the filter");
@@ -320,6 +417,28 @@ pub fn run(tier: Tier, seed: u64) -> i32 {
                                 fsh == *rsh
                             ),
                             case_json(&tag, "spelling-pair", &ftext, json!(e), None, json!({"other": texts[0]})),
+                        );
+                    }
+                }
+            }
+        }
+        // literal neighbours: one literal changed (the case of a letter, an integer by one) gives a
+        // structurally different filter: a different AST and a different document
+        if let Some((rast, rjs, _, _)) = &reference {
+            for nb in literal_neighbours(e) {
+                if normal_form(&nb) == normal_form(e) || filter_ok(&uni, &nb).is_err() {
+                    continue;
+                }
+                let ntext = render(&nb);
+                if let Ok(Ok(nast)) = guarded(|| scheme.parse(&ntext).map_err(|e| e.to_string())) {
+                    run.eval(1);
+                    run.count("literal_neighbours", 1);
+                    let njs = serde_json::to_string(&nast).unwrap_or_default();
+                    if nast == *rast || njs == *rjs {
+                        run.violation(
+                            format!("{ID}:different-literals-equal:{}", render(e)),
+                            format!("{:?} and {ntext:?} differ in one literal but (ast equal: {}, json equal: {})", texts[0], nast == *rast, njs == *rjs),
+                            case_json(&tag, "spelling-pair", &ntext, json!(e), None, json!({"other": texts[0]})),
                         );
                     }
                 }
